@@ -74,6 +74,8 @@ func safeWalk(root *ast.Node, v ast.Visitor) (pan interface{}) {
 			pan = r
 		}
 	}()
+	runner.LibEnter()
+	defer runner.LibLeave()
 	ast.Walk(root, v)
 	return nil
 }
